@@ -84,19 +84,27 @@ class BaseSimulation(metaclass=ABCMeta):
         finish_time = datetime.datetime.now() - self.start_time
         self._results['wall_time'] += finish_time.total_seconds()
 
-    def _find_current_simulation(self, data: list) -> dict:
-        for sim in data:
-            if sim['inputs'] == self._inputs:
-                return sim
+    def _find_current_simulation(
+        self, data: list, occurrence: int = 0
+    ) -> dict:
+        matches = [sim for sim in data if sim['inputs'] == self._inputs]
+        if occurrence < len(matches):
+            return matches[occurrence]
         return {}
 
-    def load_results(self, output_file: str):
-        """Load previously written results from directory."""
+    def load_results(self, output_file: str, occurrence: int = 0):
+        """Load previously written results from directory.
+
+        If several simulations of a batch have the same inputs, `occurrence`
+        says which of the records with these inputs belongs to this one.
+        """
 
         try:
             if os.path.isfile(output_file):
                 data = load_json(output_file)
-                data_simulation = self._find_current_simulation(data)
+                data_simulation = self._find_current_simulation(
+                    data, occurrence
+                )
 
                 if data_simulation != {}:
                     self.load_results_from_dict(data_simulation)
